@@ -345,6 +345,11 @@ pub fn c16_pins() -> Vec<C16Pin> {
         C16Pin { name: "insert_code_one_line", src: || "unsigned char a; void main() { a = 1; }".into(), argv_extra: &["--insert-code"] },
         C16Pin { name: "recursive_macro", src: || "#define A A+1\nunsigned char a;\nvoid main() { a = A; }\n".into(), argv_extra: &[] },
         C16Pin { name: "mutually_recursive_macros", src: || "#define A B\n#define B A\nunsigned char a;\nvoid main() { a = A; }\n".into(), argv_extra: &[] },
+        C16Pin { name: "mutually_recursive_macros_reversed", src: || "#define B A\n#define A B\nunsigned char a;\nvoid main() { a = A; }\n".into(), argv_extra: &[] },
+        C16Pin { name: "macro_cycle_of_three", src: || "#define LIMIT BASE\n#define BASE TOP + 1\n#define TOP LIMIT\nunsigned char a;\nvoid main() { a = TOP; }\n".into(), argv_extra: &[] },
+        C16Pin { name: "function_like_macro_cycle", src: || "#define G(x) F(x)\n#define F(x) G(x)\nunsigned char a;\nvoid main() { a = F(1); }\n".into(), argv_extra: &[] },
+        C16Pin { name: "recursive_function", src: || "unsigned char n;\nvoid down() { if (n) { n--; down(); } }\nvoid ping();\nvoid pong() { if (n) { n--; ping(); } }\nvoid ping() { pong(); }\nvoid main() { down(); ping(); }\n".into(), argv_extra: &[] },
+        C16Pin { name: "missing_closing_brace_at_eof", src: || "unsigned char a;\nvoid main() {\n  a = 1;\n".into(), argv_extra: &[] },
         C16Pin { name: "huge_literal", src: || "unsigned char a;\nvoid main() { a = 99999999999; }\n".into(), argv_extra: &[] },
         C16Pin { name: "double_minus_literal", src: || "void main() { csleep(--5); }\n".into(), argv_extra: &[] },
         C16Pin { name: "only_a_comment", src: || "/* unterminated comment\nvoid main() {}\n".into(), argv_extra: &[] },
